@@ -31,6 +31,55 @@ claim("C08", RM + "edge logger wrapped around CPGraph._add_edge_helper + offline
       "Exploration: hundreds/thousands of critical-path graphs built by the real analysis on simulated causally consistent traces over many windows and both launch-edge settings; every edge of every graph is judged.",
       "Trusted: hv/ref/cp.py, hv/ref/load.py, hv/wf.py (regime), G-sim ground truth for synchronisation relations. Event-sync / stream-wait edges are not produced in this environment (DESIGN O1).", "DESIGN.md §5 C08")
 
+claim("C04", RM + "reference-model oracle (integer sweep over distinct endpoints) on TraceAnalysis.get_temporal_breakdown + icontract post-condition on merge_kernel_intervals (sorted, disjoint, union measure preserved, inputs covered)",
+      "Exploration over hostile interval arrangements (touching, nested, identical, zero-length, multi-stream, multi-rank).",
+      "Trusted: hv/ref/intervals.py (sweep + documented kernel-type regexes), regime kernel_time > 0, ranks share one clock.", "DESIGN.md §5 C04")
+claim("C05", RM + "reference-model oracle on get_gpu_kernel_breakdown: exact set-of-types sweep for the kernel-type table; per rank/type conservation, num_kernels cap and per-name statistics for the per-kernel table; merge_kernel_intervals contract",
+      "Exploration over G-int arrangements x num_kernels x duration_ratio x memory on/off.",
+      "Trusted: hv/ref/intervals.py; no kernel literally named 'others'; total analysed busy time > 0.", "DESIGN.md §5 C05")
+claim("C06", RM + "reference-model oracle on get_idle_time_breakdown: per-stream gaps between consecutive kernels classified by the documented rule, with thresholds drawn from the actual gaps",
+      "Exploration over simulated traces with unlinked kernels, touching kernels, rank/stream subsets and boundary thresholds.",
+      "Trusted: hv/ref/load.py (trimming), hv/ref/raw.py (links), hv/wf.py regime (non-overlapping kernels per stream).", "DESIGN.md §5 C06")
+claim("C07", RM + "reference-model oracle (sweep) on get_comm_comp_overlap + merge_kernel_intervals contract",
+      "Exploration over G-int arrangements with communication kernels and every tie pattern.",
+      "Trusted: hv/ref/intervals.py; communication time > 0 on every rank.", "DESIGN.md §5 C07")
+claim("C09", RM + "own topological-order DP longest path vs. CPGraph.critical_path_nodes / edges_set / events_set, after analysis and after 3-8 random re-weightings judged against the weights the harness set; icontract post-condition on CPGraph.critical_path",
+      "Exploration over the graphs of C08's workload; every path is compared with an independent optimum.",
+      "Trusted: hv/ref/cp.py::longest_path. K3 (all-zero-weight graph trips the library's own assert) is a recorded known finding.", "DESIGN.md §5 C09")
+claim("C10", RM + "semantic oracle over get_critical_path_breakdown / summary / get_event_attribution_for_edge for every critical edge (attributed event exists, same thread/stream, covers the edge's time range; class from the attributed event), durations vs. the path's graph weight",
+      "Exploration over deep-nesting G-sim graphs; all four start/end attribution cases required by the floors.",
+      "Trusted: hv/ref/cp.py, loaded view from hv/ref/load.py.", "DESIGN.md §5 C10")
+claim("C11", RM + "icontract class invariant on TraceSymbolTable + snapshot/ensure on add_symbols/add_symbols_mp over random operation histories; per-rank decode oracle under loading histories and worker-delay injection with logged completion orders; id-free digests of loaded frames and ten getters across PYTHONHASHSEED x multiprocessing in fresh interpreters",
+      "Exploration (+ exhaustive add-sequences of length <= 3/4 over 3 symbols). Schedules are forced by injected delays and recorded, not enumerated.",
+      "Trusted: list-based table model, hv/ref/raw.py, digest canonicalisation in hv/c11_digest.py. Only the JSON backend is reachable.", "DESIGN.md §5 C11")
+claim("C12", RM + "reference-model oracle on the iteration column, the kept id set after load_traces(include_last_profiler_step in {F,T}) and get_iterations(); icontract post-condition on add_iteration",
+      "Exploration over simulated traces with 0-5 steps, gaps, boundary starts, unlinked activities, 1-3 ranks.",
+      "Trusted: hv/ref/load.py, hv/wf.py; all ranks carry the same step set; cuda_sync rows on stream -1 not judged for iteration.", "DESIGN.md §5 C12")
+claim("C13", RM + "oracle relative to the reported parent column: device parents from links, depth/height/kernel aggregates recomputed over the reported tree with loaded times, autograd attachment from raw-event ground truth",
+      "Exploration over simulated traces with 1-3 threads, autograd threads, epoch offsets from 0 to 1.7e15.",
+      "Trusted: hv/ref/load.py, hv/ref/raw.py, hv/wf.py::tree_parents.", "DESIGN.md §5 C13")
+claim("C14", RM + "offline step-function checker: the launch/start event log rebuilt from raw events vs. get_queue_length_time_series / get_memory_bw_time_series at every instant, and the counter events of the *_with_counters file",
+      "Exploration under heavy equal-timestamp pressure (hundreds of tied instants per quick run).",
+      "Trusted: hv/ref/load.py, link oracle, launch-name list as documented; causal regime.", "DESIGN.md §5 C14")
+claim("C15", RM + "multiset oracle over get_cuda_kernel_launch_stats rows per rank, also after histories of other read-only analyses on the same object",
+      "Exploration over simulated traces, rank subsets, memory events on/off.",
+      "Trusted: hv/ref/load.py, documented launch names.", "DESIGN.md §5 C15")
+claim("C16", RM + "first-principles recomputation of the frequent kernel patterns (host tree, links, kernels beneath each instance) vs. get_frequent_cuda_kernel_sequences for several queries on one object",
+      "Exploration over simulated traces with small operator vocabularies repeated at several depths.",
+      "Trusted: hv/wf.py::tree_parents (K1-free), link oracle; queries whose instances contain tied kernel starts are skipped.", "DESIGN.md §5 C16")
+claim("C17", RM + "reference-model oracle on TraceDiff.compare_traces / ops_diff (per-name counts and durations from raw files with the reference iteration assignment), partition law of the five classes, self-comparison law, call-order and label variants",
+      "Exploration over pairs of simulated trace sets and every kind of rank / iteration / device selection.",
+      "Trusted: hv/ref/load.py::iterations, repo's shorten_name for short names.", "DESIGN.md §5 C17")
+claim("C18", RM + "purity monitor (icontract snapshot/ensure on __call__ of every Filter class: input unchanged, sub-sequence, row equality) + row-wise predicate oracle, composite == sequential, commutation and idempotence of row-local members",
+      "Exploration: thousands of filter applications per run over encoded / decoded / in-place decoded / rank-column / reduced / empty frames.",
+      "Trusted: the row-wise predicates in hv/props/c18.py.", "DESIGN.md §5 C18")
+claim("C19", RM + "state comparison after 1-3 CPGraph.save -> restore_cpgraph cycles (nodes, edges, weight attributes, edge objects, maps, critical path, breakdown) + recomputation on the restored graph",
+      "Exploration over C08's graphs plus graphs with a clamped -1 edge.",
+      "Trusted: Python equality of dataclasses / frames up to row order.", "DESIGN.md §5 C19")
+claim("C20", RM + "offline checker over the files written (counters, overlay in every option combination, multi-step sequences from one object, write/read/update_trace_rank, rank discovery) against the source events and the graph's critical path / drawn edges",
+      "Exploration over simulated and structural traces in both file formats.",
+      "Trusted: json/gzip modules; analysed events carry an args object.", "DESIGN.md §5 C20")
+
 NOT_YET = "check not built yet in this session (work in progress; see DESIGN.md §5 for the planned monitor)"
 
 
